@@ -19,6 +19,14 @@ async def job(*args, **kwargs):
     return await sim.worker_body("job", args, kwargs)
 
 
+async def _hidden(*args, **kwargs):
+    """A coroutine function with a leading underscore (like anything under `__main__`): a dotted path like any other."""
+    sim = SIM
+    if sim is None:
+        return None
+    return await sim.worker_body("_hidden", args, kwargs)
+
+
 async def mutator(*args, **kwargs):
     """Records what it received, then empties every list/dict argument (a worker may do that)."""
     sim = SIM
